@@ -709,6 +709,88 @@ def r_type1(ctx, g):
 
 
 
+def r_groupentry(ctx, g):
+    import absint
+    from absint import Interp, Return, Unknown, OPAQUE, PyIter
+    rid = "C03.groupentry"
+    ctx.rule(rid, "convert_group_entry on a grammar-shaped pair of the `occur? groupname generic_args?` alternative and of the inline-group "
+                  "alternative: a group name gives GroupEntry::TypeGroupname with the name written, the occurrence exactly when written and "
+                  "the generic arguments exactly when written (they follow the name in the pair); `( group )` gives InlineGroup with its "
+                  "occurrence (abstract evaluation, the sub-converters scripted)", floor=5)
+    f = ctx.facts
+    B = "src/pest_bridge.rs"
+    fi = None
+    for x in f.fn_all(B, "convert_group_entry"):
+        if all(absint.default_cfg(c) for c in x.cfg):
+            fi = x
+    if fi is None:
+        raise vf.Incomplete("convert_group_entry not found")
+    ch = g.children("group_entry")
+    for need in ("occur", "groupname", "generic_args", "group"):
+        if need not in ch:
+            raise vf.Incomplete("group_entry cannot contain %s per cddl.pest" % need)
+
+    def P(rule, text="", *kids):
+        return ("enum", "Pair", {"rule": rule, "text": text, "children": list(kids)})
+    cases = {"g": ([P("groupname", "g", P("id", "g"))], (False, "g", False)),
+             "g<int>": ([P("groupname", "g", P("id", "g")), P("generic_args", "<int>")], (False, "g", True)),
+             "? g": ([P("occur", "?"), P("groupname", "g", P("id", "g"))], (True, "g", False)),
+             "* g<int>": ([P("occur", "*"), P("groupname", "g", P("id", "g")), P("generic_args", "<int>")], (True, "g", True)),
+             "$$g<int, tstr>": ([P("groupname", "$$g", P("socket_group", "$$"), P("id", "g")), P("generic_args", "<int, tstr>")], (False, "$$g", True))}
+    for cname, (kids, want) in cases.items():
+        pair = P("group_entry", cname, *kids)
+
+        def on_call(knd, name, node, args, recv):
+            if knd == "method" and isinstance(recv, tuple) and recv[:2] == ("enum", "Pair"):
+                d = recv[2]
+                if name == "as_rule":
+                    return ("enum", "Rule::" + d["rule"], [])
+                if name == "into_inner":
+                    return PyIter(d["children"])
+                if name == "as_str":
+                    return ("str", d["text"])
+                if name == "as_span":
+                    return OPAQUE
+                if name == "clone":
+                    return recv
+            if knd == "fn" and name:
+                b = name.split("::")[-1]
+                if b == "convert_identifier":
+                    return ("Ok", ("enum", "Identifier", {"text": args[0][2]["text"]}))
+                if b == "convert_occurrence":
+                    return ("Ok", ("enum", "Occurrence", {"text": args[0][2]["text"]}))
+                if b == "convert_generic_args":
+                    return ("Ok", ("enum", "GenericArgs", {"text": args[0][2]["text"]}))
+                if b in ("pest_span_to_ast_span", "pest_span_to_position", "default"):
+                    return OPAQUE
+            return NotImplemented
+        it = Interp(env={"pair": pair, "input": OPAQUE}, cfg=absint.default_cfg, on_call=on_call)
+        it.resolve_fn = vf.new_fn_resolver(ctx.facts, [B], cfg=absint.default_cfg)
+        try:
+            try:
+                res = it.block(fi.node["body"])
+            except Return as r:
+                res = r.v
+        except Unknown as e:
+            ctx.incomplete_msg(rid, "%s: %s" % (cname, e))
+            continue
+        got = None
+        if isinstance(res, tuple) and res[0] == "Ok" and isinstance(res[1], tuple) and res[1][:1] == ("enum",) and res[1][1].endswith("TypeGroupname") and isinstance(res[1][2], dict):
+            ge = res[1][2].get("ge")
+            if isinstance(ge, tuple) and ge[:1] == ("enum",) and isinstance(ge[2], dict):
+                d = ge[2]
+                some = lambda v: isinstance(v, tuple) and v[:1] == ("Some",)
+                nm = d.get("name")
+                if not absint.has_opaque((d.get("occur"), d.get("generic_args"))) and isinstance(nm, tuple) and nm[:1] == ("enum",) and isinstance(nm[2], dict):
+                    got = (some(d.get("occur")), nm[2].get("text"), some(d.get("generic_args")))
+        ctx.site(rid, cname, B, fi.line, {"ast": repr(got)})
+        if got is None and absint.has_opaque(res):
+            ctx.incomplete_msg(rid, "%s: the converted entry could not be evaluated: %r" % (cname, res if not isinstance(res, tuple) else res[:2]))
+        elif got != want:
+            ctx.violation(rid, cname, B, fi.line, "convert_group_entry on `%s` gives (occurrence present, name, generic arguments present) = %r; the derivation is %r"
+                          % (cname, got if got is not None else "not a TypeGroupname entry", want))
+
+
 # ------------------------------------------------------------------ lexical layer vs the ABNF
 NONASCII = "\u00A0-\uD7FF\uE000-\U0010FFFD"
 HEX = "0-9a-fA-F"
@@ -830,7 +912,7 @@ def _lex_feature(cls, kind, body):
 def run(ctx):
     g = pestg.G(ctx.facts.grammar())
     for name, fn in (("C03.prefix", r_prefix), ("C03.ctltable", r_ctltable), ("C03.juncture", r_juncture),
-                     ("C03.children", r_children), ("C03.order", r_order), ("C03.assign", r_assign), ("C03.occur", r_occur), ("C03.rulehead", r_rulehead), ("C03.type1", r_type1), ("C03.lexical", r_lexical), ("C03.ctlboundary", r_ctlboundary)):
+                     ("C03.children", r_children), ("C03.order", r_order), ("C03.assign", r_assign), ("C03.occur", r_occur), ("C03.rulehead", r_rulehead), ("C03.type1", r_type1), ("C03.groupentry", r_groupentry), ("C03.lexical", r_lexical), ("C03.ctlboundary", r_ctlboundary)):
         ctx.guarded(name, lambda c, fn=fn: fn(c, g))
     # which text literals the parser accepts also depends on the unescaping function the bridge applies to every text literal:
     # the grammar admits any hex digits after \\u, the function decides which of them denote a scalar value
